@@ -15,7 +15,7 @@ vars == << l, s, live, bad, done >>
 ProjEq(x, st) ==
   \A i \in 1 .. Len(st) :
      LET r == st[i] IN
-     IF r.present THEN Present(x, r.p) /\ x.res[r.p].seq = r.seq /\ x.res[r.p].obs = r.obs
+     IF r.present THEN Present(x, r.p) /\ x.res[r.p].seq = r.seq /\ ViewSeq(x.res[r.p].obs) = ViewSeq(r.obs)
      ELSE ~Present(x, r.p)
 
 CallOf(e) ==
